@@ -24,14 +24,15 @@ ASSUMPTIONS = ["Array.data is documented as freely modifiable shared state and i
 
 MUTATORS = ['invert_all', 'invert_one', 'set_all', 'set_one', 'append', 'prepend', 'insert', 'overwrite', 'del_slice', 'setitem', 'setslice',
             'replace', 'reverse', 'rol', 'ror', 'byteswap', 'ilshift', 'irshift', 'imul', 'iand', 'ior', 'ixor', 'clear', 'iadd', 'prop_uint',
-            'prop_bin', 'prop_hex', 'prop_bits', 'prop_bytes', 'ilshift_all', 'irshift_all', 'iand_zeros', 'ior_ones', 'imul_one', 'set_all_then_invert']
+            'prop_bin', 'prop_hex', 'prop_bits', 'prop_bytes', 'ilshift_all', 'irshift_all', 'iand_zeros', 'ior_ones', 'imul_one', 'set_all_then_invert', 'setslice_all', 'setslice_all',
+            'setslice_tail', 'setslice_all_literal']
 DERIVES = ['ctor_Bits', 'ctor_BitArray', 'ctor_ConstBitStream', 'ctor_BitStream', 'kw_bits', 'set_bits_prop', 'get_bits_prop', 'copycopy',
            'copy_method', 'slice_all', 'slice_part', 'slice_step', 'add', 'radd_str', 'mul', 'invert', 'and_self', 'or', 'xor', 'lshift', 'rshift',
            'join', 'join_empty', 'fromstring', 'literal', 'literal_other_cls', 'pack_bits', 'pack_kw', 'pack_token_kw', 'dtype_build', 'dtype_parse',
            'read', 'readlist', 'cut', 'split', 'array_from', 'tobitarray', 'tobitarray_roundtrip', 'unpack_bits', 'deepcopy', 'auto_from_bitarray',
            'and_same', 'add_empty_left', 'add_empty_right', 'add_empty_left_literal', 'mul_one', 'lshift0', 'rshift0', 'and_ones', 'cut_whole',
            'split_nomatch', 'radd_empty_str', 'join_single_self_empty', 'empty_append', 'empty_prepend', 'empty_iadd', 'empty_insert', 'empty_setslice',
-           'empty_overwrite0', 'cleared_append', 'cleared_prepend', 'empty_replace_all', 'empty_imul_then_append', 'empty_append_literal', 'empty_prepend_literal']
+           'empty_overwrite0', 'whole_setslice', 'cleared_append', 'cleared_prepend', 'empty_replace_all', 'empty_imul_then_append', 'empty_append_literal', 'empty_prepend_literal']
 ARRAY_DERIVES = ['arr_slice', 'arr_copy', 'arr_from_arr', 'arr_slice_step', 'arr_astype', 'arr_data_copy', 'arr_extend_into_new']
 SOURCE_KINDS = ['bytearray', 'memoryview', 'array', 'bitarray', 'bytesio', 'list', 'memoryview_ro', 'memoryview_slice', 'memoryview_kw', 'memoryview_cast',
                 'array_H', 'bitarray_frozen_src', 'bitarray_buffer', 'bytearray_kw_window']
@@ -357,6 +358,9 @@ class World:
             elif what == 'imul_then_append':
                 new *= 3
                 new.append(x)
+        elif how == 'whole_setslice':
+            new = cls_of(MUTABLE[a % 2])('0b1011')
+            new[:] = x
         elif how == 'radd_str':
             new = '0b1' + x
         elif how == 'mul':
@@ -519,6 +523,12 @@ class World:
                 x >>= 1 + a % 3
             elif how == 'imul':
                 x *= a % 3
+            elif how == 'setslice_all':
+                x[:] = other
+            elif how == 'setslice_tail':
+                x[0:] = other
+            elif how == 'setslice_all_literal':
+                x[:] = ('0b' + bits) if bits else '0b1'
             elif how == 'ilshift_all':
                 x <<= n + (a % 3)
             elif how == 'irshift_all':
@@ -751,7 +761,7 @@ def pair_case(draw, tier):
     return {'steps': steps}
 
 
-COPY_LIKE = ['ctor_Bits', 'ctor_BitArray', 'ctor_ConstBitStream', 'ctor_BitStream', 'kw_bits', 'copy_method', 'copycopy', 'slice_all', 'set_bits_prop', 'get_bits_prop', 'pack_bits',
+COPY_LIKE = ['whole_setslice', 'ctor_Bits', 'ctor_BitArray', 'ctor_ConstBitStream', 'ctor_BitStream', 'kw_bits', 'copy_method', 'copycopy', 'slice_all', 'set_bits_prop', 'get_bits_prop', 'pack_bits',
              'dtype_build', 'tobitarray_roundtrip', 'fromstring', 'literal', 'add_empty_right', 'empty_append', 'empty_prepend', 'deepcopy']
 
 
